@@ -231,6 +231,9 @@ func (c *Ctx) c18Batch(b BK) {
 				continue
 			}
 			n++
+			if ev := countersStartAtZero(p); ev != nil {
+				r.Bad("R18.3", op, "counter-not-zero", c.Pos(ev.Pos), "the per-entry counter reported by the metric does not start at 0", shortTrace(p))
+			}
 			if st == triUnknown || cnt[s.metric] != 1 || len(cnt) != 1 {
 				r.Bad("R18.3", op, "batch-metric", c.Pos(p.RetPos), fmt.Sprintf("%s emits %s, expected exactly one %s", s.op, fmtCounts(cnt), s.metric), shortTrace(p))
 				continue
